@@ -76,9 +76,11 @@ Qed.
 
 End Bag.
 
-(* result keys: objects that all have a key, pairwise different, get pairwise different dictionary keys *)
-Theorem bag_keys_nodup {K} (pks : list K) : NoDup pks -> NoDup (bag_keys (map Some pks)).
+(* result keys: pairwise different primary keys give pairwise different dictionary keys, none of them None *)
+Theorem bag_keys_nodup {K} (pks : list K) : NoDup pks -> NoDup (bag_keys pks) /\ ~ In None (bag_keys pks).
 Proof.
-  unfold bag_keys. induction 1 as [|x l Hx Hl IH]; cbn; constructor; [|assumption].
-  rewrite in_map_iff. intros (y & E & Hy). inversion E. now subst.
+  unfold bag_keys. split.
+  - induction H as [|x l Hx Hl IH]; cbn; constructor; [|assumption].
+    rewrite in_map_iff. intros (y & E & Hy). inversion E. now subst.
+  - rewrite in_map_iff. intros (y & E & _). discriminate.
 Qed.
